@@ -1,7 +1,7 @@
 (* C06 -- Mixed schedules perform the minimal possible number of forward steps
    Property theorems only: each proof is one application of a lemma proved in Proofs/, followed by Print Assumptions. *)
 From Coq Require Import ZArith List Bool.
-From CS Require MixInv MixDP GenLang5 GenMixed.
+From CS Require MixInv MixDP GenLang5 GenMixed MixHelperSpec.
 From CS Require Import Actions NAdvance Multistage Exec Sched RunFacts Projections BasicInv MultistageRun AllocTotal TLBridge MixBridge.
 Import ListNotations.
 Open Scope Z_scope.
@@ -18,6 +18,36 @@ Print Assumptions C06_mixed_forward_total.
 Theorem C06_cost_is_planner_cost : forall m k : Z, 1 <= m -> (1 <= k \/ m = 1 /\ 0 <= k) -> C3 m k = MixDP.C m k.
 Proof. exact C3_C. Qed.
 Print Assumptions C06_cost_is_planner_cost.
+
+(* THE PUBLISHED HELPER optimal_steps_mixed IS THE SOURCE: MixHelperSpec.osm_shape is the Gallina function harness/translate.py (HelperTr) renders from optimal_steps_mixed of mixed.py (behind cache_step; `m = 1 + f(n-1, s-1); for i in range(2, n): m = min(m, i + f(i, s) + f(n-i, s-1))` as py_for over a running minimum); Gen/MixHelperGen.v re-translates the current source on every run and proves the result equal to that term by conversion.  Whenever the memoised planner mixed_step_memoization(n, s) (Mixed.memo, itself re-translated: Gen/MemoGen.v) returns a plan, the helper returns that plan's cost, for every fuel and argument *)
+Module M_C06_helper_is_source.
+Import MixHelperSpec.
+Theorem C06_helper_is_source :
+  forall (f : nat) (n s : Z) (p : Mixed.plan_t),
+         Mixed.memo f n s = Actions.Ok p -> osm_shape f n s = Actions.Ok (snd p).
+Proof. exact (@MixHelperSpec.osm_of_memo). Qed.
+Print Assumptions C06_helper_is_source.
+End M_C06_helper_is_source.
+
+(* optimal_steps_mixed(n, s), as translated from the source, returns on its whole domain MixDP.C n s -- by C06_cost_is_planner_cost and C06_mixed_forward_total the number of forward steps of the Mixed stream *)
+Module M_C06_helper_is_planner_cost.
+Import MixHelperSpec.
+Theorem C06_helper_is_planner_cost :
+  forall (f : nat) (n s : Z),
+         1 <= n -> (Z.to_nat n <= f)%nat -> Z.min 1 (n - 1) <= s -> osm_shape f n s = Actions.Ok (MixDP.C n s).
+Proof. exact (@MixHelperSpec.osm_value). Qed.
+Print Assumptions C06_helper_is_planner_cost.
+End M_C06_helper_is_planner_cost.
+
+(* ... and outside that domain it raises ValueError before any recursion *)
+Module M_C06_helper_rejects.
+Import MixHelperSpec.
+Theorem C06_helper_rejects :
+  forall (f : nat) (n s : Z),
+         n <= 0 \/ s < Z.min 1 (n - 1) -> osm_shape (S f) n s = Actions.Err Actions.ValueError.
+Proof. exact (@MixHelperSpec.osm_rejects). Qed.
+Print Assumptions C06_helper_rejects.
+End M_C06_helper_rejects.
 
 (* THE MODEL OF MixedCheckpointSchedule IS THE SOURCE: GenMixed.mixed_prog_model is the program (generator language GenLang5: the stack snapshots of (step type, n0, n1) triples, the set snapshot_n, the planner read as a function, step-type / integer / boolean locals, break) that harness/translate.py produces from MixedCheckpointSchedule._iterator; Gen/MixedGen.v re-translates the current source on every run and proves it equal to that term by conversion.  For every planner the constructor can select (the table of mixed_steps_tabulation or mixed_step_memoization behind its cache) and under EVERY history of next() and finalize(k) calls, resuming that program request by request from the freshly constructed object gives exactly the observations (outcome, n, r, max_n, is_exhausted) of the schedule object of Model/Sched.v (hand-written machine Mixed.resume) -- up to the first exception the latter raises (raise_free: none on the documented domain, by the Mixed run theorems of this file); the invariant carried through is that the set snapshot_n holds exactly the distinct first components of the stack (GenMixed.sinv), which is why the model needs no set *)
 Module M_C06_mixed_source_is_model.
